@@ -271,7 +271,7 @@ STREAMS = PRIM_STREAMS + [
 
 
 # ---------------------------------------------------------------- oracle: world-linear ramps through every operation
-RAMP_OPS = ["resize", "resample", "downsample", "upsample", "pyramid", "avg_pool", "crop", "pad", "center_crop", "center_pad",
+RAMP_OPS = ["resize", "resample", "downsample", "upsample", "downsample_neg", "upsample_neg", "pyramid", "avg_pool", "crop", "pad", "center_crop", "center_pad",
             "roi", "narrow", "conv", "sample"]
 
 
@@ -309,10 +309,16 @@ def _apply_ramp_op(batch: ImageBatch, op: str, rng: random.Random):
         sp = batch.grid().spacing() * rng.uniform(0.7, 1.5)
         return batch.resample(sp), 0
     if op == "downsample":
-        return batch.downsample(1), 0
+        return batch.downsample(1, align_corners=rng.choice([None, None, True, False])), 0
     if op == "upsample":
-        return batch.upsample(1), 0
+        return batch.upsample(1, align_corners=rng.choice([None, None, True, False])), 0
+    if op == "downsample_neg":      # negative levels delegate to the opposite operation
+        return batch.downsample(-1, align_corners=rng.choice([None, None, True, False])), 0
+    if op == "upsample_neg":
+        return batch.upsample(-1, align_corners=rng.choice([None, None, True, False])), 0
     if op == "pyramid":
+        if min(size) < 8:            # quantifier: levels with size / 2^levels >= 2
+            return batch, 0
         levels = 2
         pyr = batch.pyramid(levels)
         return pyr[rng.choice(sorted(pyr))], 0
@@ -343,6 +349,8 @@ def _apply_ramp_op(batch: ImageBatch, op: str, rng: random.Random):
             return batch, 0
         return batch.narrow(dim, 1, n - 2), 0
     if op == "conv":
+        if min(size) < 3:
+            return batch, 0
         k = torch.tensor([0.25, 0.5, 0.25])
         return batch.conv(k, padding=rng.choice([PaddingMode.NONE, PaddingMode.ZEROS])), 1
     if op == "sample":
@@ -393,7 +401,13 @@ def check_ramp(c):
             n_prev = torch.tensor([float(v) for v in gp.size()], dtype=torch.float64)
             inside = ((idx >= m - 1e-6) & (idx <= n_prev - 1 - m + 1e-6)).all(-1)
             cube = gp.world_to_cube(pts, decimals=None, align_corners=True).double()
-            v = F.grid_sample(valid[i][None, None], cube[None], mode="bilinear", padding_mode="zeros", align_corners=True)[0, 0]
+            vp = valid[i][None, None]
+            if m > 0:
+                # operations with a footprint (convolution): every sample within m previous samples must be valid
+                k = 2 * int(m) + 1
+                pool = F.max_pool2d if vp.ndim == 4 else F.max_pool3d
+                vp = -pool(F.pad(-vp, (int(m),) * (2 * (vp.ndim - 2)), value=0.0), kernel_size=k, stride=1)
+            v = F.grid_sample(vp, cube[None], mode="bilinear", padding_mode="zeros", align_corners=True)[0, 0]
             new_valid.append(((v > 1 - 1e-6) & inside).double())
         valid = new_valid
     data = batch.tensor()
